@@ -168,7 +168,8 @@ CHECKS["C09"] = {
     "required_cells": ["align:True", "align:False", "offsets", "dynamic-union", "top-level-union:static",
                        "top-level-union:dynamic", "form:T.reads(memoryview)",
                        "form:cs.read(name, BytesIO)", "char-shortcut", "direct:buffered-file",
-                       "direct:unbuffered-file", "direct:BytesIO"],
+                       "direct:unbuffered-file", "direct:BytesIO",
+                       "direct:forward-only-stream"],
     "assumptions": ASSUME_COMMON,
 }
 
@@ -253,7 +254,8 @@ CHECKS["C13"] = {
                        "parser.py:TokenParser._constant", "parser.py:TokenParser._parse_field_type",
                        "parser.py:TokenParser._names", "cstruct.py:cstruct.add_type", "cstruct.py:cstruct.resolve"],
     "required_cells": ["reordered", "split-loads", "builtin-aliases", "alias-chain", "unknown-alias", "cyclic-alias",
-                       "keyword-like-field-names", "string-constants", "alias-replace", "boundary:line-ends"],
+                       "keyword-like-field-names", "string-constants", "alias-replace", "boundary:line-ends",
+                       "comment-replaces-whitespace", "define-without-value", "alias-of-array-or-pointer-redeclared"],
     "assumptions": ASSUME_COMMON,
 }
 
@@ -341,7 +343,8 @@ CHECKS["C16"] = {
     "required_cells": ["width:uint8", "width:uint16", "width:uint24", "width:uint32", "width:uint48", "width:uint64",
                        "target:char", "target:struct", "target:ptrptr", "reader:compiled", "reader:interpreted",
                        "endian:>", "union-pointers", "reconfigured-width", "context-target:first", "context-target:last",
-                       "context-target:both"],
+                       "context-target:both",
+                       "copied-pointers", "linked-structures"],
     "assumptions": ASSUME_COMMON,
 }
 
@@ -366,7 +369,8 @@ CHECKS["C11"] = {
                        "route:nested-via-proxy", "route:nested-deep", "route:anonymous-struct-field",
                        "route:array-replace", "route:nested-union", "route:explicit-offset-member",
                        "shape:explicit-offsets", "held-reference", "route:refused-assignment", "route:array-assigned-back",
-                       "route:refused-nested-assignment"],
+                       "route:refused-nested-assignment",
+                       "route:structure-in-array-member", "defaults-and-falsy-values"],
     "assumptions": ASSUME_COMMON + ["an assignment writes the member's full encoding (its padding as zero) into the "
                                     "union's bytes"],
 }
@@ -388,7 +392,8 @@ CHECKS["C17"] = {
                        "types/structure.py:_generate_structure__init__", "types/structure.py:StructureMetaType._update_fields",
                        "types/structure.py:attrsetter"],
     "required_cells": ["align:True", "align:False", "fields:0+", "fields:5+", "fields:10+", "nested-struct-in-union",
-                       "discard-field"],
+                       "discard-field",
+                       "special-forms", "falsy-values-and-default-elements", "duplicate-folded-names", "enum-field-holding-a-plain-integer"],
     "assumptions": ASSUME_COMMON + ["NaN-containing values are not used (NaN != NaN as in Python)"],
 }
 
